@@ -15,7 +15,7 @@ RULE = ('Hypothesis: hosted unit set (1..5 ids out of 0..247, biased to contain 
         'broadcast on: a unit-0 write is applied to every hosted unit with exactly one setValues each and nothing is sent; '
         'broadcast off: unit 0 is an ordinary id; single mode: every unit id reaches the one context) and every response '
         'equals the model\'s. Exhaustive sweep: all 256 unit ids x hosted-set shapes x flags for one write. Non-trivial: '
-        'multi mode with >=2 hosted units and a write request; distinct by SHA-1.')
+        'multi mode with >=2 hosted units and a write request; distinct by SHA-1. Writes may cover a whole table of a unit; most multi-unit contexts do not host unit 0 (hosting it switches the unit filter off).')
 ASSUMPTIONS = ['Twisted front-ends have no broadcast option: broadcast cases are not generated for them',
                'frames a framer drops because the unit filter rejects them count as "answered not at all"',
                'binary histories containing delimiter bytes are excluded and counted']
